@@ -94,13 +94,14 @@ func alphabet(quick bool) (ops []op) {
 	selHosts := []string{"", "h1"}
 	renewHosts := []string{""}
 	saddHosts := []string{"", "h1"}
-	supdHosts := []string{"h2"}
+	// "H1" is normalised to "h1" by the server.
+	supdHosts := []string{"h2", "H1"}
 	if !quick {
 		nmac = 4
 		selHosts = []string{"", "h1", "h2"}
 		renewHosts = []string{"", "h2"}
 		saddHosts = []string{"", "h1", "h2"}
-		supdHosts = []string{"h1", "h2"}
+		supdHosts = []string{"h1", "h2", "H1"}
 	}
 	var macs []int
 	for m := 1; m <= nmac; m++ {
@@ -114,7 +115,7 @@ func alphabet(quick bool) (ops []op) {
 	for _, m := range macs {
 		ops = append(ops, op{Kind: "disc", MAC: m})
 	}
-	ops = append(ops, op{Kind: "advance"}, op{Kind: "restart"})
+	ops = append(ops, op{Kind: "advance"}, op{Kind: "restart"}, op{Kind: "off"})
 	for _, m := range macs {
 		ops = append(ops, op{Kind: "srm", MAC: m})
 	}
@@ -264,12 +265,15 @@ type viol struct{ Key, Desc string }
 type instance struct {
 	dir string
 	srv *dhcpd.VerifC10Server
+	// off: DHCP is switched off in the configuration (history starts with
+	// the operation "off"); static leases are still managed through the API.
+	off bool
 }
 
-func newServer(dir string) (*dhcpd.VerifC10Server, error) {
+func newServer(dir string, off bool) (*dhcpd.VerifC10Server, error) {
 	return dhcpd.VerifC10New(dhcpd.VerifC10Conf{
 		DataDir: dir, Gateway: gateway, Mask: mask, RangeStart: poolStart, RangeEnd: poolEnd,
-		Self: selfIP, LeaseSec: uint32(leaseDur / time.Second),
+		Self: selfIP, LeaseSec: uint32(leaseDur / time.Second), Disabled: off,
 	})
 }
 
@@ -352,7 +356,16 @@ func (in *instance) apply(o op) (r result) {
 		}
 	}()
 	switch o.Kind {
+	case "off":
+		// Only meaningful as the first operation (see exec): later it is a
+		// no-op in an "off" history and not applicable otherwise.
+		r.NA = !in.off
 	case "disc", "probe", "req-sel", "req-reboot", "req-renew", "decline", "release":
+		if in.off {
+			// No listener runs while DHCP is switched off.
+			r.NA = true
+			return r
+		}
 		rc, resp, err := in.srv.Handle(buildReq(o))
 		if err != nil {
 			r.Err = err.Error()
@@ -400,7 +413,7 @@ func (in *instance) apply(o op) (r result) {
 	case "restart":
 		// The running server is dropped (Stop does not store anything) and a new
 		// one is created on the same directory: Create -> dbLoad.
-		srv, err := newServer(in.dir)
+		srv, err := newServer(in.dir, in.off)
 		if err != nil {
 			r.Err = err.Error()
 			return r
@@ -822,11 +835,12 @@ func (e *engine) exec(hist []op) (er execResult) {
 		panic(err)
 	}
 	defer os.RemoveAll(dir)
-	srv, err := newServer(dir)
+	off := len(hist) > 0 && hist[0].Kind == "off"
+	srv, err := newServer(dir, off)
 	if err != nil {
 		panic(fmt.Sprintf("creating the server: %v", err))
 	}
-	in := &instance{dir: dir, srv: srv}
+	in := &instance{dir: dir, srv: srv, off: off}
 	m := newModel()
 	hs := histString(hist)
 	fail := func(vs ...viol) {
@@ -840,6 +854,9 @@ func (e *engine) exec(hist []op) (er execResult) {
 		d = in.srv.Dump()
 		recs, raw, rerr = readDB(in.srv.DBPath())
 		key = dumpStr(&d, now) + " || " + m.key(now) + " || " + diskKey(recs, raw, now)
+		if in.off {
+			key = "DHCP-OFF " + key
+		}
 		return
 	}
 	for i, o := range hist {
@@ -958,6 +975,9 @@ func (e *engine) exec(hist []op) (er execResult) {
 		er.step.NonTrivial = key != beforeKey
 		// Probe (the instance is thrown away afterwards): a DISCOVER from a
 		// client never seen before is offered an address iff one is free.
+		if in.off {
+			break // no DHCP messages are served while DHCP is switched off
+		}
 		psite := "probe-after-" + o.Kind
 		pr := in.apply(op{Kind: "probe", MAC: 0x99})
 		if pr.Panic != "" {
